@@ -10,6 +10,8 @@ import (
 // OSProfile selects what the hand-made (Cluster)ObjectSet scenario family varies.
 type OSProfile struct {
 	// PhaseObjectDrift lets the intruder delete delegated phase objects (they are re-created with a new UID).
+	// Recreate: a deleted ObjectSet may come back under the same name and be deleted again.
+	Recreate         bool
 	PhaseObjectDrift bool
 	// SliceDrift lets the intruder delete ObjectSlices (sliced scenarios).
 	SliceDrift   bool
@@ -54,7 +56,7 @@ func mkObject(p poolObj, variant int, explicitNS string) store.Obj {
 	}
 	switch p.gvkKind {
 	case "ConfigMap", "Secret":
-		o["data"] = map[string]any{"k": "v" + strconv.Itoa(variant)}
+		o["data"] = map[string]any{"k": "v" + strconv.Itoa(variant), "e": ""} // "e": a field whose desired value is empty
 	case "Deployment":
 		o["spec"] = map[string]any{"replicas": int64(1), "variant": int64(variant)}
 	case "Widget", "ClusterWidget":
@@ -92,6 +94,8 @@ var probePool = []store.Obj{
 		"probes": []any{map[string]any{"cel": map[string]any{"rule": `has(self.status) && has(self.status.phase) && self.status.phase == "Running"`, "message": "not running"}}}},
 	{"selector": map[string]any{"kind": map[string]any{"group": "sim.example", "kind": "ClusterWidget"}},
 		"probes": []any{map[string]any{"condition": map[string]any{"type": "Ready", "status": "True"}}}},
+	// an entry without probes still demands an up-to-date status (observedGeneration) of what it selects
+	{"selector": map[string]any{"kind": map[string]any{"group": "apps", "kind": "Deployment"}}, "probes": []any{}},
 }
 
 // OSGen is the state of the generated ObjectSet scenario (kept as Facts).
@@ -245,6 +249,23 @@ func GenOS(w *World, prof OSProfile) *Scenario {
 				sc.UserOps = append(sc.UserOps, UserOp{Label: "archive " + name, Do: func(w *World) { setLifecycle(w, key, "Archived") }})
 			case 3:
 				sc.UserOps = append(sc.UserOps, UserOp{Label: "delete " + name, Do: func(w *World) { _ = w.TP("user", w.Mgmt).Delete(key, "Background") }})
+				if prof.Recreate && s.Chance(1, 2, "recreate") {
+					// the same name comes back as a new object (new UID) in the same operator process
+					var again store.Obj
+					for _, sp := range specs {
+						if store.Str(sp, "metadata", "name") == name {
+							again = store.Copy(sp)
+						}
+					}
+					if again != nil {
+						sc.UserOps = append(sc.UserOps, UserOp{Label: "re-create " + name, Do: func(w *World) {
+							if _, exists := w.Mgmt.Objs[key]; !exists {
+								_, _ = w.TP("user", w.Mgmt).Create(store.Copy(again))
+							}
+						}})
+						sc.UserOps = append(sc.UserOps, UserOp{Label: "delete " + name + " again", Do: func(w *World) { _ = w.TP("user", w.Mgmt).Delete(key, "Background") }})
+					}
+				}
 			case 4:
 				sc.UserOps = append(sc.UserOps, UserOp{Label: "delete --cascade=orphan " + name, Do: func(w *World) { _ = w.TP("user", w.Mgmt).Delete(key, "Orphan") }})
 			}
